@@ -17,11 +17,16 @@ class CheckC06(core.Check):
     rule = (
         "case = one session with injected failing calls and retries (as C07, fresh randomness on every attempt), conversion, "
         "transport traffic with rekeys; the recording resolver logs every AEAD encryption (key, nonce, ad, plaintext digest) and "
-        "every RNG draw; oracle = no two enc events of the merged trace share (key, nonce) with different (ad, plaintext), and every "
+        "every RNG draw; oracle = no two enc events of the merged trace share (key, nonce) with different (ad, plaintext) - REKEY counted as the "
+        "encryption of 32 zero bytes under the nonce it is observed to consume -, no two different nonces of one key yield the same "
+        "keystream (messages 2^32, 2^33, 2^48, 2^63 apart), and every "
         "ephemeral in a successful write is the public key of bytes drawn inside that call; distinct key = (pattern+psk variant, DH, "
         "fault causes); non-trivial = >= 1 failed call followed by a successful retry with cipher events recorded"
     )
-    assumptions = ["the REKEY encryption (nonce 2^64-1, empty ad, zeros) is logged as a distinct event kind by the wrapper and excluded by definition"]
+    assumptions = [
+        "the nonce a REKEY consumed is identified by the wrapper from the key in effect afterwards (a second instance of the same cipher keyed with ENCRYPT(k, n, '', zeros) for n = 2^64-1 and 2^64-2)",
+        "keystream = ciphertext XOR plaintext over the first 16 bytes (all three built-in AEADs are stream constructions)",
+    ]
     min_required = {"enc_events": 5000, "distinct_key_nonce_pairs": 3000, "ephemerals_checked": 500, "failed_calls_observed": 300}
     cases_per_shard = 250
 
@@ -56,6 +61,8 @@ class CheckC06(core.Check):
         h.handshake(paylens, plan)
         h.convert()
         h.transport_phase(rnd, nmsgs=4, fault_rate=0.3, rekeys=True, manual=True, stray_setrx=True)
+        if rnd.random() < 0.35:
+            h.far_nonce_episode(rnd)
         if rnd.random() < 0.3:
             h.exhaustion_episode(rnd)
         h.done()
@@ -72,6 +79,7 @@ class CheckC06(core.Check):
             return r
         fault_labels = {str(l): (op, cause) for l, _p, op, cause in case.meta["faults"]}
         seen = {}  # (key, nonce) -> (ad, pt digest, where)
+        kstream = {}  # (key, first 16 keystream bytes) -> nonce
         fired = []
         retried_ok = False
         toks = tokens_for(parsed.pattern, parsed.psks)
@@ -115,8 +123,36 @@ class CheckC06(core.Check):
                         seen[k] = cur + ("%s %s" % (e.op, e.label),)
                     if n == 2**64 - 1:
                         r.foreign_dev("C09", "reserved nonce used to encrypt")
+                    ks = kv.get("ks", "-")
+                    if ks != "-":
+                        # beneath the trait boundary: the same keystream under two different nonces of one key means the
+                        # back end mapped both to one AEAD nonce
+                        r.stats["keystream_prefixes_compared"] += 1
+                        o = kstream.setdefault((kv["key"], ks), n)
+                        if o != n:
+                            r.viol(
+                                "C06|aead-nonce-collision|%s" % parsed.cipher,
+                                "%s: key %s.. produced the same keystream for nonces %d and %d (difference %d): the back end encrypts both under one AEAD nonce" % (name, kv["key"][:16], o, n, abs(n - o)),
+                            )
+                            return r
                 elif kind == "c" and sub == "rekey":
                     r.stats["rekey_events"] += 1
+                    used = kv.get("used", "unchecked")
+                    if used == "unknown":
+                        r.foreign_dev("C15/C18", "the key in effect after REKEY is not ENCRYPT(k, 2^64-1, '', zeros)")
+                    elif used.isdigit() and kv.get("old", "unset") != "unset":
+                        # REKEY is an AEAD encryption too: of 32 zero bytes, under the old key and the nonce it really consumed
+                        r.stats["rekey_nonces_identified"] += 1
+                        k = (kv["old"], int(used))
+                        cur = ("-", "zeros32")
+                        if k in seen and seen[k][:2] != cur:
+                            prev = seen[k]
+                            r.viol(
+                                "C06|reuse|rekey|%s" % ("reserved" if int(used) == 2**64 - 1 else "message-nonce"),
+                                "%s: REKEY at %s %s encrypted 32 zero bytes under key %s.. and nonce %s, which the same key also used for a message at %s (pt %s)" % (name, e.op, e.label, kv["old"][:16], used, prev[2], prev[1]),
+                            )
+                            return r
+                        seen.setdefault(k, cur + ("%s %s (REKEY)" % (e.op, e.label),))
             if e.op == "hs_write" and e.ok and e.party in nwrites:
                 # which message index did this party just write? its j-th write is message 2j (+1 for the responder)
                 idx = 2 * nwrites[e.party] + (0 if e.party == "A" else 1)
